@@ -34,6 +34,11 @@ def run(tier, seed):
     vlib.require_ok(res, "RefsGen")
     out = vlib.replay(ENGINE, scen)
     vlib.absorb_replay(v, out, ENGINE, scen)
+    # the same cover on the FILE ref store, for the operations it implements (RefsGen!FsStep decides which)
+    fout = vlib.replay(ENGINE, scen, env={"REFS_STORE": "fs"})
+    vlib.absorb_replay(v, fout, ENGINE, scen, extra={"store": "fs"})
+    if not any(k != "-" for k in fout.classes):
+        raise vlib.Inconclusive("no scenario was applicable to the file ref store (vacuous)")
     # (C): real-scale traces
     trace = os.path.join(vlib.sub("traces"), "refs.ndjson")
     ntr, ln = (40, 80) if tier == "quick" else (400, 150)
@@ -54,6 +59,8 @@ def run(tier, seed):
     nontrivial = sum(c for k, c in out.classes.items() if k != "-")
     cov = {
         "remotecfg": rcov,
+        "file_store": {"scenarios_judged": sum(c for k, c in fout.classes.items() if k != "-"), "skipped_not_implemented": fout.classes.get("-", 0),
+                       "passed": fout.passed},
         "states": res.distinct, "transitions": res.generated,
         "traces_validated_against_impl": n_traces - len(rejections),
         "trace_events": n_events,
@@ -100,7 +107,8 @@ def replay(path):
     scen = os.path.join(vlib.sub("scn"), "one.ndjson")
     with open(scen, "w") as f:
         f.write(json.dumps(doc["scenario"]) + "\n")
-    out = vlib.replay(doc.get("engine", ENGINE), scen, nshards=1)
+    out = vlib.replay(doc.get("engine", ENGINE), scen, nshards=1,
+                      env={"REFS_STORE": "fs"} if doc.get("store") == "fs" else None)
     if out.errors:
         raise vlib.Inconclusive(str(out.errors))
     if out.failures or out.crashes or out.timeouts:
